@@ -122,6 +122,41 @@ def run_model_parallel(exe, values, workers=None, batch=24, cpu_per_job=6):
 
 
 
+def run_grouped(exe, jobs, workers=None):
+    """jobs: "run" jobs (run_job).  Those that execute the same dump (same entry point, fuel, reading) are sent as ONE
+    "runs" job, so that the module is parsed and decoded once for all its inputs; results in the order of `jobs`.
+    A group that hits the CPU/memory limit is re-run input by input."""
+    groups, order = {}, []
+    for i, j in enumerate(jobs):
+        k = (id(j["ir"]), j["ep"], j["fuel"], bool(j.get("lenient")))
+        if k not in groups:
+            groups[k] = []
+            order.append(k)
+        groups[k].append(i)
+    gjobs = []
+    for k in order:
+        j0 = jobs[groups[k][0]]
+        gjobs.append({"pass": "runs", "ir": j0["ir"], "ep": j0["ep"], "fuel": j0["fuel"], "lenient": bool(j0.get("lenient")),
+                      "inputs": [{"globals": jobs[i]["globals"], "args": jobs[i]["args"]} for i in groups[k]]})
+    res = run_model_parallel(exe, gjobs, workers=workers, batch=12, cpu_per_job=12)
+    out = [None] * len(jobs)
+    redo = []
+    for k, r in zip(order, res):
+        idx = groups[k]
+        if r.get("ok") and isinstance(r.get("results"), list) and len(r["results"]) == len(idx):
+            for i, x in zip(idx, r["results"]):
+                out[i] = x
+        elif r.get("kind") == "limit" and len(idx) > 1:
+            redo += idx
+        else:
+            for i in idx:
+                out[i] = r
+    if redo:
+        for i, x in zip(redo, run_model_parallel(exe, [jobs[i] for i in redo], workers=workers)):
+            out[i] = x
+    return out
+
+
 def desentinel(x):
     """Handles removed by a pass are written as ^uint32(0) by Go; the extracted model
     keeps nat in unary, so the dump is rewritten with a small sentinel."""
